@@ -639,7 +639,9 @@ def key_a(e, cell, fk, text, rgkind):
             "batched": len(ob.shape_of(e)) > 2, "rg": rgkind, "classes": ",".join(L.classes_of(e)),
             "has_identity": has_cls(e, "Identity"), "has_chol_upper": has_cls(e, "Chol", lambda x: x.get("upper")),
             "interp_rect_base": rect, "interp_below_default_path": below, "toeplitz_size1_batch_dim": toeplitz_inner1(e),
-            "exc": (text.split(":")[0] if fk == "raises" else None)}
+            "exc": (text.split(":")[0] if fk == "raises" else None),
+            # torch.autograd.grad inside the default path found no differentiable path to any requested tensor
+            "no_grad_path": bool(fk == "raises" and "does not require grad and does not have a grad_fn" in text)}
 
 
 def observe_one(e, rg_mask, Us, Vs):
